@@ -557,6 +557,17 @@ func (r *refDynValue) getValue(
 		}
 		return nil, err
 	}
+
+	// A resolver that knows the name absorbs a cyclic reference to it. The
+	// value it hands out can contain references again (a list or an object is
+	// expanded like configuration data): if it is re-entered for the same
+	// name while that value is still being evaluated, the cycle is real and
+	// resolving it once more would never end.
+	if cyclic, ok := previousErr.(Error); ok && cyclic.Reason() == ErrCyclicReference {
+		if !opts.activeFields.AddNew("\x00resolver\x00" + ref.Path.String()) {
+			return nil, previousErr
+		}
+	}
 	return parseValue(p, opts, str, parseCfg)
 }
 
